@@ -295,7 +295,9 @@ func c10(p *model.Prog, r *report.Result) {
 		}
 		for _, a := range ci.Common().Args {
 			if s, isS := model.ConstString(a); isS && strings.HasPrefix(s, "#EXT-X-ENDLIST") {
-				guarded := model.GuardedBy(ci, func(c ssa.Value, pol bool) bool { return len(wpFn.Params) == 2 && c == ssa.Value(wpFn.Params[1]) && pol })
+				guarded := model.GuardedBy(ci, func(c ssa.Value, pol bool) bool {
+					return len(wpFn.Params) == 2 && c == ssa.Value(wpFn.Params[1]) && pol
+				})
 				before := false
 				for _, w := range model.CallsTo(wpFn, p.FuncObj("pkg/hls", "writeM3u8File")) {
 					if (model.PathQuery{From: ci, Target: func(x ssa.Instruction) bool { return x == w }}).Find(wpFn) != nil {
